@@ -384,7 +384,8 @@ def _do_extract(raw, i, unitfile, repo_root, out, log, meta, twin=False):
             item.scope = words[0] if words and words[0] != "*" else None
             i += 1
         elif dname == "attr":
-            prefix_lines.insert(0, Line(ticks[0], ("gen", "verifier-only attribute")))
+            # directly in front of the item itself (inside the impl wrapper, if there is one)
+            item.insert_lines(0, [Line(ticks[0], ("gen", "verifier-only attribute"))])
             log.attrs.append({"item": ex.describe(), "attr": ticks[0]})
             i += 1
         elif dname == "ret":
